@@ -86,6 +86,28 @@ def handleStats (focus : String) (c : Case) : String := Id.run do
     | some l => if l.getD 1 "" == "none" then none else some (fvecAt l 1)
     | none => none
   let Yf : FMat := match c.firstWith "Y" with | some l => fmatAt l 1 | none => ⟨0, 0, #[]⟩
+  -- single precision data in units whose SQUARES leave the range of the type (|y| < 1e-15): sums of
+  -- squares are subnormal or zero, σ², the covariance and the band underflow - legitimate outputs of
+  -- floating point arithmetic that the value comparisons below are not made for.  For these cases only
+  -- the defining identities of C12 are judged, in the arithmetic of the type: χ² = |r_w|²/(N−M−P) up to
+  -- the subnormal grid, standard error = √χ², under-determined ⇒ no statistics.
+  let ymaxAll := arrMaxAbs Yf.a
+  if width == 32 && ymaxAll > 0.0 && ymaxAll < 1e-15 then
+    acc := { acc with compared := acc.compared + 1, nontrivial := true }
+    if hasStats then
+      if n ≤ m + p then acc := { acc with mon := acc.mon.push s!"statistics-for-underdetermined-fit-N={n}-M+P={m+p}" }
+      if !term.wasSuccessful then acc := { acc with mon := acc.mon.push s!"statistics-returned-for-a-failed-fit({termS})" }
+      let wresU : Array Float := ((stLine c "wres").map fun l => fvecAt l 2).getD #[]
+      let chiU : Float := ((stLine c "chi2").map fun l => parseF (l.getD 2 "")).getD 0.0
+      let sigU : Float := ((stLine c "sigma").map fun l => parseF (l.getD 2 "")).getD 0.0
+      let ssU := wresU.foldl (fun a v => a + v * v) 0.0
+      let chiEU := ssU / (n - m - p).toFloat
+      let tinyU : Float := Float.scaleB 1.0 (-149)
+      if !((chiU - chiEU).abs ≤ 64.0 * u * n.toFloat * chiEU + (n.toFloat + 2.0) * tinyU) then
+        acc := { acc with mon := acc.mon.push s!"reduced_chi2={fmtF chiU}≠|r|²/(N-M-P)={fmtF chiEU}" }
+      if !((sigU - chiU.sqrt).abs ≤ 4.0 * u * sigU.abs + 1e-300) then
+        acc := { acc with mon := acc.mon.push s!"regression_standard_error={fmtF sigU}≠sqrt(chi2)={fmtF chiU.sqrt}" }
+    return acc.render s!"{tagBase}/underrange"
   let w : Option (Vector Float n) := wIn.map (vecOfArray n)
   let oracle : TOracle := { tables := steps.map (·.tables) }
   let U := tableModel n m p oracle
@@ -239,7 +261,9 @@ def handleStats (focus : String) (c : Case) : String := Id.run do
         acc := { acc with mon := acc.mon.push s!"weighted_residuals≠final-residuals:{fmtF (maxDiff rf wresI)}" }
     let ss := wresI.foldl (fun a v => a + v * v) 0.0
     let chiE := ss / dof.toFloat
-    if !((chi2I - chiE).abs ≤ 64.0 * u * n.toFloat * chiE + 1e-300) then
+    -- (absolute term: in the subnormal range of the scalar type every square is rounded to the grid 2^-149 / 2^-1074)
+    let tiny : Float := if width == 32 then Float.scaleB 1.0 (-149) else Float.scaleB 1.0 (-1074)
+    if !((chi2I - chiE).abs ≤ 64.0 * u * n.toFloat * chiE + (n.toFloat + 2.0) * tiny + 1e-300) then
       acc := { acc with mon := acc.mon.push s!"reduced_chi2={fmtF chi2I}≠|r|²/(N-M-P)={fmtF chiE}" }
     if !((sigmaI - chi2I.sqrt).abs ≤ 4.0 * u * sigmaI.abs + 1e-300) then
       acc := { acc with mon := acc.mon.push s!"regression_standard_error≠sqrt(chi2)" }
